@@ -415,7 +415,7 @@ func c20RunCase(t *testing.T, e *vfEnv, class string, in c20In, keyRng *rand.Ran
 		ListenAddr: "127.0.0.1",
 		PeerType:   p2p.PeerType(in.RType),
 		Register:   &c20Reg{ans: in.IStaked},
-		MetricsReg: prometheus.NewRegistry(), // own registry per service (trees before 1f15f90 crash on a refused handshake without one)
+		MetricsReg: prometheus.NewRegistry(), // own registry per service (trees before 0c53096 crash on a refused handshake without one)
 		Logger:     slog.New(slog.NewTextHandler(logc, &slog.HandlerOptions{Level: slog.LevelError})),
 	})
 	if err != nil {
